@@ -57,6 +57,8 @@ pub struct Out {
     pub findcases: Vec<String>,
     pub parsecases: Vec<String>,
     pub descs: Vec<(u64, String)>,
+    /// derivations done earlier in this process: (case, descriptor, index, the oracle's script)
+    pub history: Vec<(u64, String, u32, ScriptBuf)>,
 }
 impl Out {
     pub fn count(&mut self, k: &str) { *self.counters.entry(k.to_string()).or_insert(0) += 1; }
@@ -160,12 +162,8 @@ fn coq_gkey(w: &World, k: &GKey) -> String {
             }
         }
         GKey::Raw { .. } => "(KSingle None (Sx \"\"))".to_string(),
-        GKey::X { xk, with_origin, alts, wild, .. } => {
-            let o = if *with_origin {
-                coq_origin(&Some((w.xks[*xk].master_fp, w.xks[*xk].opath.clone())))
-            } else {
-                "None".to_string()
-            };
+        GKey::X { xk, origin, alts, wild, .. } => {
+            let o = coq_origin(origin);
             let paths = k.paths();
             if alts.is_empty() {
                 format!("(KXpub {} {} {} {})", o, xk, coq_steps(&paths[0]), coq_wild(*wild))
@@ -223,12 +221,8 @@ fn coq_parse_input(w: &World, k: &GKey) -> Option<String> {
     };
     match k {
         GKey::Raw { xk, toks, .. } => Some(format!("None, {}, {}, {}", xk, w.xks[*xk].xpub.depth, toks)),
-        GKey::X { xk, with_origin, pre, alts, post, wild, xprv: false } => {
-            let o = if *with_origin {
-                coq_origin(&Some((w.xks[*xk].master_fp, w.xks[*xk].opath.clone())))
-            } else {
-                "None".to_string()
-            };
+        GKey::X { xk, origin, pre, alts, post, wild, xprv: false } => {
+            let o = coq_origin(origin);
             let mut t: Vec<String> = pre.iter().map(tstep).collect();
             if !alts.is_empty() {
                 let inner = coq_steps(alts);
@@ -675,6 +669,7 @@ pub fn run_case(w: &World, case: &Case, seed: u64, out: &mut Out) {
     // ---------------- derivation at indices, scripts of every derived descriptor
     let has_wild = case.keys.iter().any(|k| k.has_wildcard());
     let mut first_definite: Option<(Vec<PublicKey>, u32)> = None;
+    let mut new_history: Vec<(u64, String, u32, ScriptBuf)> = Vec::new();
     for (j, (dj, keys_j)) in singles.iter().enumerate() {
         let sj = format!("{:#}", dj);
         let mut indices: Vec<u32> = if has_wild {
@@ -790,6 +785,9 @@ pub fn run_case(w: &World, case: &Case, seed: u64, out: &mut Out) {
                     script_battery(w, out, case, &sj, i, &case.shape, pks, dd, export);
                     if first_definite.is_none() {
                         first_definite = Some((pks.clone(), i));
+                    }
+                    if case.stream == "shared-origin" && ii == 1 {
+                        new_history.push((case.id, sj.clone(), i, expect_for(w, &case.shape, pks).spk));
                     }
                     if !xprv {
                         match &at {
@@ -1090,6 +1088,43 @@ pub fn run_case(w: &World, case: &Case, seed: u64, out: &mut Out) {
                     break;
                 }
             }
+        }
+    }
+    // ---------------- history independence: what was derived before this descriptor derives to
+    // the same scripts after it (and vice versa: this descriptor was judged above after them)
+    if case.stream == "shared-origin" {
+        let old: Vec<(u64, String, u32, ScriptBuf)> = out.history.clone();
+        for (hid, hdesc, hidx, hspk) in old.iter().filter(|h| h.0 != case.id) {
+            out.count("history_rederivations");
+            let again = catch_unwind(AssertUnwindSafe(|| {
+                Descriptor::<DescriptorPublicKey>::from_str(hdesc)
+                    .ok()
+                    .and_then(|x| x.derived_descriptor(secp, *hidx).ok())
+                    .map(|x| x.script_pubkey())
+            }));
+            if !matches!(&again, Ok(Some(spk)) if spk == hspk) {
+                out.violation(
+                    "history-dependence",
+                    case,
+                    hdesc,
+                    Some(*hidx),
+                    &format!(
+                        "after deriving {} the descriptor of case {} derives at index {} to {} instead of the script {} \
+                         of independent BIP32 derivation (it did before)",
+                        s,
+                        hid,
+                        hidx,
+                        again.as_ref().ok().and_then(|o| o.as_ref().map(|x| hex(x.as_bytes()))).unwrap_or_else(|| "an error".into()),
+                        hex(hspk.as_bytes())
+                    ),
+                    &format!(",\"derived_before\":{}", jstr(&s)),
+                );
+            }
+        }
+        out.history.extend(new_history);
+        let n = out.history.len();
+        if n > 8 {
+            out.history.drain(0..n - 8);
         }
     }
     if out.samples.len() < 40 && case.id % 7 == 3 {
